@@ -14,6 +14,7 @@ OWNERS = {
     "StreamRegisterList": ["C10"],
     "NewRegisterApi": ["C11"],
     "CommaString": ["C15"],
+    "GetList": ["C20"],
 }
 
 API_THEOREMS = {
@@ -22,6 +23,7 @@ API_THEOREMS = {
             "C09_api_fieldlist_bits"],
     "C10": ["C10_api_StreamRegisterList", "C10_api_stream_product_lists"],
     "C11": ["C11_api_NewRegisterApi"],
+    "C20": ["C20_api_GetList"],
     "C15": ["C15_api_ReadFieldListRegister", "C15_api_fieldlist_bits", "C15_api_CommaString", "C15_api_CommaString_deterministic",
             "C15_api_every_map_order"],
 }
